@@ -240,8 +240,12 @@ def check_property(engine, tier, base_seed, n_runs, jobs, budget_s=None, write_e
                     {"seed": r["seed"], "spec": r.get("spec"), "v": v})
     agg = aggregate(results)
 
-    for (prop, sig, raw), n in sorted(known_hits.items()):
-        print("KNOWN-FINDING: property=%s %s (hit %d times)" % (prop, raw, n))
+    hits_by_raw = Counter()
+    for (prop, sig, raw), n in known_hits.items():
+        hits_by_raw[raw] += n
+    for rec in known["open"]:
+        if rec.get("property") == pid:
+            print("KNOWN-FINDING: %s (reproduced %d times in this run)" % (rec["raw"], hits_by_raw.get(rec["raw"], 0)))
 
     replay_paths = []
     n_viol = sum(len(g) for g in viol_groups.values())
